@@ -1308,6 +1308,8 @@ class Exec:
         self.st0 = st.fork()
         outs = self.run_block([st], self.fn.body)
         for o in outs:
+            if o.ctl == 'continue' and self.c.get('loop_body'):
+                o.ctl = None         # the verified text is the body of a loop: ``continue`` ends this iteration
             if o.ctl not in (None, 'return'):
                 raise NotInSubset(f'{o.ctl} outside loop')
             o.ctl = None
